@@ -180,3 +180,8 @@ Definition wfeed_orig (s : wstate) (c : bytes) : list N * wstate :=
 
 Definition final_info (s : wstate) : option info :=
   match s with Some (Pass i, _) => Some i | _ => None end.
+
+(** every byte handed to the wrapped protocol, together with the addresses getPeer()/getHost() report to the wrapped
+    protocol WHILE it receives that byte (the wrapper stores the parsed header before it passes on what followed it) *)
+Definition wfeed_tagged (s : wstate) (c : bytes) : list (option info * N) * wstate :=
+  let r := wfeed s c in (map (fun b => (final_info (snd r), b)) (fst r), snd r).
